@@ -111,10 +111,13 @@ func tunnelParts(b []byte) []fixture {
 func builtFixtures(r *lib.Rand) []fixture {
 	var out []fixture
 	add := func(k *kind, ls ...gopacket.SerializableLayer) {
-		b := gopacket.NewSerializeBuffer()
-		if err := gopacket.SerializeLayers(b, gopacket.SerializeOptions{FixLengths: true, ComputeChecksums: true}, ls...); err == nil {
-			out = append(out, fixture{k, append([]byte(nil), b.Bytes()...)})
-		}
+		protect(func() string { // a serializer that panics (mutated tree) must not take the generator down
+			b := gopacket.NewSerializeBuffer()
+			if err := gopacket.SerializeLayers(b, gopacket.SerializeOptions{FixLengths: true, ComputeChecksums: true}, ls...); err == nil {
+				out = append(out, fixture{k, append([]byte(nil), b.Bytes()...)})
+			}
+			return ""
+		})
 	}
 	eth := &layers.Ethernet{SrcMAC: net.HardwareAddr{0, 0x1b, 0x21, 0x3c, 0xab, 0x10}, DstMAC: net.HardwareAddr{0x52, 0x54, 0, 0x12, 0x35, 2}, EthernetType: layers.EthernetTypeIPv4}
 	ip := &layers.IPv4{Version: 4, IHL: 5, TTL: 64, Protocol: layers.IPProtocolUDP, SrcIP: net.IP{10, 0, 0, 1}, DstIP: net.IP{10, 0, 0, 2}}
@@ -704,6 +707,9 @@ func gen(r *lib.Rand, tier string, emit func(string)) {
 	for c := 0; c < nSeq; c++ {
 		k := kindOrder[r.Pick([]int{0, 1, 1, 2, 2, 2})]
 		ps := pool[k]
+		if len(ps) == 0 {
+			continue
+		}
 		emit("reset")
 		emit(decLine(k, foreignFor(nil, r.Intn(4)), ps[r.Intn(len(ps))]))
 		for j := 1 + r.Intn(4); j > 0; j-- {
